@@ -33,7 +33,7 @@ m("C03", "C03-return-close-after-copy", "R03-scopeexit:vm:OP_RETURN", ("vm.go", 
 m("C04", "C04-swap-div-mod", "R04-events:objectArith:OP_DIV", ("vm.go", "\tcase OP_DIV:\n\t\tevent = \"__div\"\n\tcase OP_MOD:\n\t\tevent = \"__mod\"", "\tcase OP_DIV:\n\t\tevent = \"__mod\"\n\tcase OP_MOD:\n\t\tevent = \"__div\""))
 m("C04", "C04-rawget-via-gettable", "R04-raw:root:baseRawGet", ("baselib.go", "L.Push(L.RawGet(L.CheckTable(1), L.CheckAny(2)))", "L.Push(L.GetTable(L.CheckTable(1), L.CheckAny(2)))"))
 m("C04", "C04-le-fallback-not-swapped", "R04-events:OP_LE:fallback", ("vm.go", "ret = !objectRationalWithError(L, rhs, lhs, \"__lt\")", "ret = !objectRationalWithError(L, lhs, rhs, \"__lt\")"))
-m("C04", "C04-arith-push-rhs-first", "R04-events:objectArith:handler-call", ("vm.go", "\t\tL.reg.Push(op)\n\t\tL.reg.Push(lhs)\n\t\tL.reg.Push(rhs)\n\t\tL.Call(2, 1)\n\t\treturn L.reg.Pop()\n\t}\n\tif str, ok := lhs.(LString); ok {", "\t\tL.reg.Push(op)\n\t\tL.reg.Push(rhs)\n\t\tL.reg.Push(lhs)\n\t\tL.Call(2, 1)\n\t\treturn L.reg.Pop()\n\t}\n\tif str, ok := lhs.(LString); ok {"))
+m("C04", "C04-arith-push-rhs-first", "R04-events:objectArith:handler-call", ("vm.go", "\t\tL.reg.Push(op)\n\t\tL.reg.Push(lhs)\n\t\tL.reg.Push(rhs)\n\t\tL.Call(2, 1)\n\t\treturn L.reg.Pop()\n\t}\n\tL.RaiseError(fmt.Sprintf(\"cannot perform %v operation", "\t\tL.reg.Push(op)\n\t\tL.reg.Push(rhs)\n\t\tL.reg.Push(lhs)\n\t\tL.Call(2, 1)\n\t\treturn L.reg.Pop()\n\t}\n\tL.RaiseError(fmt.Sprintf(\"cannot perform %v operation"))
 m("C04", "C04-metaop2-right-first", "R04-events:metaOp2:left-first", ("state.go", "\tif mt := ls.metatable(value1, true); mt != LNil {\n\t\tif tb, ok := mt.(*LTable); ok {\n\t\t\tif ret := tb.RawGetString(event); ret != LNil {\n\t\t\t\treturn ret\n\t\t\t}\n\t\t}\n\t}\n\tif mt := ls.metatable(value2, true); mt != LNil {", "\tif mt := ls.metatable(value2, true); mt != LNil {\n\t\tif tb, ok := mt.(*LTable); ok {\n\t\t\tif ret := tb.RawGetString(event); ret != LNil {\n\t\t\t\treturn ret\n\t\t\t}\n\t\t}\n\t}\n\tif mt := ls.metatable(value1, true); mt != LNil {"))
 # ---- C05 (kept from the first thorough trial)
 m("C05", "C05-inner-arm-no-currentFrame", "R05-restore:(*LState).PCall$1$1:currentFrame=", ("state.go", "\t\t\t\t\t\tls.stack.SetSp(sp)\n\t\t\t\t\t\tls.currentFrame = ls.stack.Last()\n\t\t\t\t\t\tls.closeUpvalues(base)", "\t\t\t\t\t\tls.stack.SetSp(sp)\n\t\t\t\t\t\tls.closeUpvalues(base)"))
@@ -293,5 +293,8 @@ m("C14", "C14-backref-guard-off-by-one-unmarked", "R14-index:recursiveVM:Capture
 
 m("C06", "C06-wrap-marks-the-thread", "R06-resumeapi:result-convention-written-outside-a-resume:coWrap", ("coroutinelib.go", "\tcoCreate(L)\n\tv := L.Get(L.GetTop())\n", "\tcoCreate(L)\n\tL.CheckThread(L.GetTop()).wrapped = true\n\tv := L.Get(L.GetTop())\n"), ("coroutinelib.go", "\tth.wrapped = wrapped\n", "\twrapped = th.wrapped\n"), ("coroutinelib.go", "\tth := L.CheckThread(1)\n\tif L.G.CurrentThread == th {", "\tth := L.CheckThread(1)\n\twrapped = th.wrapped\n\tif L.G.CurrentThread == th {"))
 m("C06", "C06-api-resume-keeps-old-convention", "R06-resumeapi:(*LState).Resume:sets-result-convention-for-this-resume#1", ("state.go", "\tth.wrapped = false // this resume expects the status in front of the values\n", ""))
+
+m("C04", "C04-arith-handler-before-conversion", "R04-events:objectArith:converts-before-looking-for-a-handler", ("vm.go", "\tif v1, ok1 := lnum.(LNumber); ok1 {\n\t\tif v2, ok2 := rnum.(LNumber); ok2 {\n\t\t\treturn numberArith(L, opcode, LNumber(v1), LNumber(v2))\n\t\t}\n\t}\n\top := L.metaOp2(lhs, rhs, event)\n\tif _, ok := op.(*LFunction); ok {\n\t\tL.reg.Push(op)\n\t\tL.reg.Push(lhs)\n\t\tL.reg.Push(rhs)\n\t\tL.Call(2, 1)\n\t\treturn L.reg.Pop()\n\t}\n", "\top := L.metaOp2(lhs, rhs, event)\n\tif _, ok := op.(*LFunction); ok {\n\t\tL.reg.Push(op)\n\t\tL.reg.Push(lhs)\n\t\tL.reg.Push(rhs)\n\t\tL.Call(2, 1)\n\t\treturn L.reg.Pop()\n\t}\n\tif v1, ok1 := lnum.(LNumber); ok1 {\n\t\tif v2, ok2 := rnum.(LNumber); ok2 {\n\t\t\treturn numberArith(L, opcode, LNumber(v1), LNumber(v2))\n\t\t}\n\t}\n"))
+m("C04", "C04-unm-handler-before-conversion", "R04-events:handler[OP_UNM]:converts-before-looking-for-a-handler", ("vm.go", "\t\t\tif str, ok := unaryv.(LString); ok {\n\t\t\t\t// a string that converts to a number is negated as a number; a handler is looked for only otherwise\n\t\t\t\tif num, err := parseNumber(string(str)); err == nil {\n\t\t\t\t\tunaryv = num\n\t\t\t\t}\n\t\t\t}\n", ""))
 if __name__ == "__main__":
     main()
